@@ -92,7 +92,8 @@ Weights(n, ds, k) == [r \in 1..n |-> ((ds[k + r] % 7) - 3)]
 
 NoCall == [k |-> "none", ko |-> <<>>, ref |-> <<>>, refgiven |-> FALSE, refobj |-> 0, num |-> 1, den |-> 1,
            delta |-> 0, eps |-> 0, useobj |-> FALSE, objc |-> <<>>, sub |-> <<>>,
-           hist |-> "none"]
+           hist |-> "none",
+           refuse |-> FALSE]      \* TRUE: the model has an infinite bound -- ROOM has no valid big-M and refuses (ValueError)
 Call(M, k, K) == [NoCall EXCEPT !.k = k, !.ko = Mask(M, K), !.ref = ZeroVec(M), !.objc = M.c,
                                 !.sub = [r \in RIdx(M) |-> 1]]
 
@@ -149,7 +150,10 @@ BuildC09(d) ==
            feas == SelectSeq([j \in 1..Len(kos) |-> j], LAMBDA j : Fs[j] # {})
            pf == PfbaCalls(M, {}, F0, ds, FALSE) \o
                  (IF Len(feas) >= 2 THEN PfbaCalls(M, kos[feas[2]], Fs[feas[2]], ds, TRUE) ELSE <<>>)
-           adj == IF AllFinite(M) THEN ConcatAll([i \in 1..Len(feas) |-> AdjustCalls(M, kos[feas[i]], A, ds, i)]) ELSE <<>>
+           adj == IF AllFinite(M) THEN ConcatAll([i \in 1..Len(feas) |-> AdjustCalls(M, kos[feas[i]], A, ds, i)])
+                  ELSE LET ref == RefFor(A, Weights(NR(M), ds, 5))
+                           g(k) == [Call(M, k, {}) EXCEPT !.ref = ref, !.refgiven = TRUE, !.refobj = Dot(M.c, ref), !.refuse = TRUE]
+                       IN <<g("room"), g("linroom")>>
        IN [skip |-> FALSE, M |-> M, calls |-> pf \o adj]
 
 \* ---------------------------------------------------------------- C06: rules, lists, calls
